@@ -76,7 +76,9 @@ class World:
 
 # the documented presentation keywords of every runtime assertion: they change the wording, never the verdict
 PRESENTATION = {"explanation": {"explanation": "because the exercise says so"}, "context": {"context": "While checking your answer"},
-                "assertion": {"assertion": "your answer to match mine"}}
+                "assertion": {"assertion": "your answer to match mine"},
+                # documented options of the equality assertions that ask for the DEFAULT behaviour explicitly
+                "delta_none": {"delta": None}, "exact_false": {"exact_strings": False}}
 
 
 def run_case(w, rec, wl, wr, kw=None):
@@ -127,6 +129,8 @@ def replay_chunk(cases, extra):
                 wraps = [("proxy", "raw")]
             # one of the wrappings is repeated with a presentation keyword (which one rotates with the cell)
             extra = [(wraps[n % len(wraps)][0], wraps[n % len(wraps)][1], ["explanation", "context", "assertion"][n % 3])]
+            if rec["a"] in ("equal", "not_equal"):
+                extra.append((wraps[(n + 1) % len(wraps)][0], wraps[(n + 1) % len(wraps)][1], ["delta_none", "exact_false"][n % 2]))
             for wl, wr, kw in [(a, b, None) for a, b in wraps] + extra:
                 if rec["l"] in ("err", "errx") and wl == "raw" or (rec["a"] not in UNARY and rec["r"] in ("err", "errx") and wr == "raw"):
                     continue
